@@ -4,5 +4,6 @@ CONSTANTS MaxPages = 4
           MaxCalls = 12
           ShapeStops = TRUE
           Stream = FALSE
+          HaltInFetch = TRUE
 INVARIANTS Emit
 CHECK_DEADLOCK FALSE
